@@ -12,8 +12,11 @@ package main
 //                 observables: the order in which (block, index) pairs were forwarded
 // Oracle-only classes: "diff/..." (same pair diffed N times under GOMAXPROCS 1,2,8,16 with a
 // source pool that returns short reads and yields: patch and signature bytes identical),
-// "optimize/..." (rediff N times, fixed parameters), "bsdiff/..." (message stream identical, and
-// replaying it on old gives new), "race/..." (the pipelines in a `go build -race` child).
+// "optimize/..." (rediff N times, fixed parameters, plus many repetitions of its analysis pass),
+// "bsdiff/..." (message stream identical, and replaying it on old gives new), "race/..." (the
+// pipelines in a `go build -race` child).
+// Every slicing reader ends its stream in one of the two ways an io.Reader may: (0, io.EOF) on a
+// read of its own, or io.EOF together with the last bytes (chunkyReader.eofData, c15Upstream.eofData).
 
 import (
 	"bytes"
@@ -36,6 +39,7 @@ import (
 	"github.com/itchio/lake/pools/fspool"
 	"github.com/itchio/wharf/bsdiff"
 	"github.com/itchio/wharf/multiread"
+	"github.com/itchio/wharf/pwr/rediff"
 	"github.com/itchio/wharf/taskgroup"
 
 	"verif/harness/lib"
@@ -51,9 +55,12 @@ var c15Procs = []int{1, 2, 8, 16}
 // ---------------------------------------------------------------- readers that slice and yield
 
 type chunkyReader struct {
-	r     io.Reader
-	rng   *lib.Rng
-	burst int // remaining 1-byte reads of a burst
+	r       io.Reader
+	rng     *lib.Rng
+	burst   int   // remaining 1-byte reads of a burst
+	left    int64 // bytes the underlying reader still has (-1: unknown)
+	eofData bool  // hand out the last bytes together with io.EOF (n > 0, err == io.EOF: legal for an io.Reader)
+	done    bool
 }
 
 func (c *chunkyReader) Read(p []byte) (int, error) {
@@ -79,18 +86,49 @@ func (c *chunkyReader) Read(p []byte) (int, error) {
 			k = len(p)
 		}
 	}
+	if c.done {
+		return 0, io.EOF
+	}
 	n, err := c.r.Read(p[:k])
+	if c.left >= 0 {
+		c.left -= int64(n)
+		if c.eofData && c.left == 0 && n > 0 && err == nil {
+			c.done = true
+			err = io.EOF
+		}
+	}
 	if c.rng.Chance(1, 4) {
 		runtime.Gosched()
 	}
 	return n, err
 }
 
+// how the readers of a slicing pool report the end of a file
+const (
+	eofRandom   = iota // each reader tosses a coin
+	eofWithData        // every reader returns its last bytes together with io.EOF
+	eofSeparate        // every reader returns (0, io.EOF) after its last bytes, like os.File
+)
+
+var c15EOFModes = []string{"random", "with-data", "separate"}
+
+func newChunky(r io.Reader, size int64, rng *lib.Rng, mode int) *chunkyReader {
+	c := &chunkyReader{r: r, rng: rng, left: size}
+	switch mode {
+	case eofWithData:
+		c.eofData = true
+	case eofRandom:
+		c.eofData = rng.Bool()
+	}
+	return c
+}
+
 // chunkyPool wraps the source pool of a diff
 type chunkyPool struct {
 	lake.Pool
-	mu  sync.Mutex
-	rng *lib.Rng
+	mu   sync.Mutex
+	rng  *lib.Rng
+	mode int // eofRandom | eofWithData | eofSeparate
 }
 
 func (p *chunkyPool) GetReader(i int64) (io.Reader, error) {
@@ -100,7 +138,37 @@ func (p *chunkyPool) GetReader(i int64) (io.Reader, error) {
 	}
 	p.mu.Lock()
 	defer p.mu.Unlock()
-	return &chunkyReader{r: r, rng: p.rng.Fork()}, nil
+	return newChunky(r, p.Pool.GetSize(i), p.rng.Fork(), p.mode), nil
+}
+
+// the optimizer takes read-seekers: same slicing, Seek passed through and the number of bytes
+// left recomputed from the position reached
+type chunkySeeker struct {
+	*chunkyReader
+	s    io.Seeker
+	size int64
+}
+
+func (c *chunkySeeker) Seek(off int64, whence int) (int64, error) {
+	pos, err := c.s.Seek(off, whence)
+	c.done = false
+	if err != nil || pos > c.size {
+		c.left = -1
+	} else {
+		c.left = c.size - pos
+	}
+	return pos, err
+}
+
+func (p *chunkyPool) GetReadSeeker(i int64) (io.ReadSeeker, error) {
+	r, err := p.Pool.GetReadSeeker(i)
+	if err != nil {
+		return nil, err
+	}
+	p.mu.Lock()
+	defer p.mu.Unlock()
+	size := p.Pool.GetSize(i)
+	return &chunkySeeker{newChunky(r, size, p.rng.Fork(), p.mode), r, size}, nil
 }
 
 func withProcs(n int, f func()) {
@@ -153,10 +221,11 @@ func runC15(c0 *Ctx) error {
 // ---------------------------------------------------------------- fan-out (multiread + taskgroup)
 
 type c15Upstream struct {
-	data   []byte
-	chunks []int // sizes of successive reads (0 allowed: a read that returns nothing)
-	pos    int
-	yield  *lib.Rng
+	data    []byte
+	chunks  []int // sizes of successive reads (0 allowed: a read that returns nothing)
+	pos     int
+	yield   *lib.Rng
+	eofData bool // the last read of the list returns its bytes together with io.EOF
 }
 
 func (u *c15Upstream) Read(p []byte) (int, error) {
@@ -175,6 +244,9 @@ func (u *c15Upstream) Read(p []byte) (int, error) {
 	}
 	n := copy(p[:k], u.data[u.pos:])
 	u.pos += n
+	if u.eofData && len(u.chunks) == 0 {
+		return n, io.EOF
+	}
 	return n, nil
 }
 
@@ -235,6 +307,8 @@ func c15Fanout(c *Ctx) error {
 			chunks = append([]int{0}, chunks...)
 		}
 		procs := c15Procs[i%len(c15Procs)]
+		// one case in three: the source returns its last read together with io.EOF
+		eofData := (i/len(c15Procs))%3 == 1
 		b1, b2 := []int{1, 2, 3, 8, 64, 1024}[cr.Intn(6)], []int{1, 2, 5, 16, 4096}[cr.Intn(5)]
 		k1 := &c15Consumer{buf: b1, yield: cr.Fork()}
 		k2 := &c15Consumer{buf: b2, yield: cr.Fork()}
@@ -242,7 +316,7 @@ func c15Fanout(c *Ctx) error {
 		var returned time.Time
 		withProcs(procs, func() {
 			cls, msg = lib.WithDeadline(20*time.Second, func() error {
-				mr := multiread.New(&c15Upstream{data: data, chunks: append([]int(nil), chunks...), yield: cr.Fork()})
+				mr := multiread.New(&c15Upstream{data: data, chunks: append([]int(nil), chunks...), yield: cr.Fork(), eofData: eofData})
 				r1, r2 := mr.Reader(), mr.Reader()
 				err := taskgroup.Do(context.Background(),
 					func() error { return k1.run(r1) },
@@ -271,11 +345,15 @@ func c15Fanout(c *Ctx) error {
 		if cls == "ok" {
 			ok = "true"
 		}
-		c.Out.Emit(&lib.Case{Group: "fanout", Class: fmt.Sprintf("fanout/procs%d", procs), Nontrivial: len(chunks) >= 2 && size >= 2,
-			Input:  map[string]interface{}{"data": lib.Ints(data), "chunks": chunks, "buf1": b1, "buf2": b2, "procs": procs},
+		cl := fmt.Sprintf("fanout/procs%d", procs)
+		if eofData {
+			cl += "/eof-with-data"
+		}
+		c.Out.Emit(&lib.Case{Group: "fanout", Class: cl, Nontrivial: len(chunks) >= 2 && size >= 2,
+			Input:  map[string]interface{}{"data": lib.Ints(data), "chunks": chunks, "eofWithLastRead": eofData, "buf1": b1, "buf2": b2, "procs": procs},
 			Obs:    map[string]interface{}{"class": cls, "got1": len(k1.got), "got2": len(k2.got), "reads1": k1.reads, "reads2": k2.reads},
 			Oracle: oracle,
-			Coq: fmt.Sprintf("($ID%%N, %s, ([%s]%%nat), %d%%nat, %d%%nat, %d%%N, (%s, %s, %s))", lib.CoqBytes(data), strings.Join(ch, ";"), b1, b2,
+			Coq: fmt.Sprintf("($ID%%N, %s, ([%s]%%nat), %s, %d%%nat, %d%%nat, %d%%N, (%s, %s, %s))", lib.CoqBytes(data), strings.Join(ch, ";"), lib.CoqBool(eofData), b1, b2,
 				cr.U64()%(1<<31), ok, lib.CoqBytes(k1.got), lib.CoqBytes(k2.got))})
 	}
 	return nil
@@ -302,8 +380,9 @@ func c15WritePair(c *Ctx, name string, old, nw *lib.Build, rel []string) (*c15Pa
 	return p, nil
 }
 
-// one diff with a slicing, yielding source pool under the given GOMAXPROCS
-func c15DiffOnce(p *c15Pair, comp lib.Compression, procs int, rng *lib.Rng) (res *lib.DiffResult, cls, msg string) {
+// one diff with a slicing, yielding source pool under the given GOMAXPROCS; mode says how its
+// readers report the end of a file (rng == nil: plain fspool, GOMAXPROCS as given)
+func c15DiffOnce(p *c15Pair, comp lib.Compression, procs int, rng *lib.Rng, mode int) (res *lib.DiffResult, cls, msg string) {
 	withProcs(procs, func() {
 		cls, msg = lib.WithDeadline(120*time.Second, func() error {
 			var pool lake.Pool
@@ -312,7 +391,7 @@ func c15DiffOnce(p *c15Pair, comp lib.Compression, procs int, rng *lib.Rng) (res
 				if err != nil {
 					return err
 				}
-				pool = &chunkyPool{Pool: fspool.New(nc, p.newDir), rng: rng}
+				pool = &chunkyPool{Pool: fspool.New(nc, p.newDir), rng: rng, mode: mode}
 			}
 			var err error
 			res, err = lib.Diff(p.oldDir, p.newDir, comp, pool)
@@ -348,30 +427,35 @@ func c15DiffCases(c *Ctx) error {
 
 func c15DiffDeterminism(c *Ctx, cr *lib.Rng, p *c15Pair, comp lib.Compression, runs int, corpus string) error {
 	// reference: plain pool, default GOMAXPROCS
-	ref, cls, msg := c15DiffOnce(p, comp, runtime.NumCPU(), nil)
+	ref, cls, msg := c15DiffOnce(p, comp, runtime.NumCPU(), nil, eofSeparate)
 	oracle := ""
 	var procsUsed []int
+	var eofUsed []string
 	if cls != "ok" {
 		oracle = "reference diff " + cls + ": " + msg
 	}
 	for k := 0; k < runs && oracle == ""; k++ {
 		procs := c15Procs[k%len(c15Procs)]
+		// how the readers end a file rotates independently of GOMAXPROCS (3 and 4 are coprime)
+		mode := (k + 1) % 3
 		procsUsed = append(procsUsed, procs)
-		got, cls, msg := c15DiffOnce(p, comp, procs, cr.Fork())
+		eofUsed = append(eofUsed, c15EOFModes[mode])
+		got, cls, msg := c15DiffOnce(p, comp, procs, cr.Fork(), mode)
+		how := fmt.Sprintf("run %d (GOMAXPROCS %d, slicing source pool, EOF %s)", k, procs, c15EOFModes[mode])
 		switch {
 		case cls != "ok":
-			oracle = fmt.Sprintf("run %d (GOMAXPROCS %d) diff %s: %s", k, procs, cls, msg)
+			oracle = fmt.Sprintf("%s diff %s: %s", how, cls, msg)
 		case !bytes.Equal(got.Patch, ref.Patch):
-			oracle = fmt.Sprintf("run %d (GOMAXPROCS %d, slicing source pool): patch bytes differ from the reference run (len %d vs %d, first difference at %d)", k, procs, len(got.Patch), len(ref.Patch), firstDiffAt(got.Patch, ref.Patch))
+			oracle = fmt.Sprintf("%s: patch bytes differ from the reference run (len %d vs %d, first difference at %d)", how, len(got.Patch), len(ref.Patch), firstDiffAt(got.Patch, ref.Patch))
 		case !bytes.Equal(got.Sig, ref.Sig):
-			oracle = fmt.Sprintf("run %d (GOMAXPROCS %d, slicing source pool): signature bytes differ from the reference run (len %d vs %d, first difference at %d)", k, procs, len(got.Sig), len(ref.Sig), firstDiffAt(got.Sig, ref.Sig))
+			oracle = fmt.Sprintf("%s: signature bytes differ from the reference run (len %d vs %d, first difference at %d)", how, len(got.Sig), len(ref.Sig), firstDiffAt(got.Sig, ref.Sig))
 		}
 	}
 	cl := "diff/" + comp.String()
 	if corpus != "" {
 		cl = "corpus/" + corpus
 	}
-	obs := map[string]interface{}{"runs": len(procsUsed), "procs": procsUsed}
+	obs := map[string]interface{}{"runs": len(procsUsed), "procs": procsUsed, "eof": eofUsed}
 	if ref != nil {
 		obs["patchLen"], obs["sigLen"] = len(ref.Patch), len(ref.Sig)
 	}
@@ -394,8 +478,8 @@ func firstDiffAt(a, b []byte) int {
 // ---------------------------------------------------------------- optimizer determinism
 
 // pairs for the optimizer: every file of both builds has at least 1 KiB (bsdiff on empty or
-// tiny inputs is the subject of C07/C12, not of this property)
-func c15GenOptPair(r *lib.Rng, big bool) (*lib.Build, *lib.Build, []string) {
+// tiny inputs is the subject of C07/C12, not of this property); mosaic: see c15Mosaic
+func c15GenOptPair(r *lib.Rng, big, mosaic bool) (*lib.Build, *lib.Build, []string) {
 	old, nw := &lib.Build{}, &lib.Build{}
 	var rel []string
 	nf := r.Range(1, 3)
@@ -430,38 +514,167 @@ func c15GenOptPair(r *lib.Rng, big bool) (*lib.Build, *lib.Build, []string) {
 		nw.Put(lib.Entry{Path: "shared.bin", Kind: "file", Data: append(append(append([]byte(nil), a...), r.Bytes(300)...), b...)})
 		rel = append(rel, "shared:two old files contribute the same number of blocks")
 	}
+	if mosaic {
+		for m, n := 0, r.Range(1, 2); m < n; m++ {
+			rel = append(rel, c15Mosaic(r, old, nw, m)...)
+		}
+	}
 	return old, nw, rel
 }
 
-func c15OptimizeDeterminism(c *Ctx, cr *lib.Rng, p *c15Pair, o lib.OptParams, runs int, corpus string) error {
+// c15Mosaic adds a new file assembled from block ranges of 2..4 old "donor" files in unequal
+// shares: several old files have a claim on it, and which of them rank first, tie, or pass any
+// threshold on the reused bytes depends on the spans taken, on whether a donor goes on after the
+// range taken from it (rediff credits a range with span*64 KiB - 1 plus the size of the block
+// after it) and on its tail.  The new file has a name of its own, or that of a donor.
+func c15Mosaic(r *lib.Rng, old, nw *lib.Build, m int) []string {
+	k := []int{2, 2, 2, 3, 3, 4}[r.Intn(6)]
+	donors := make([][]byte, k)
+	names := make([]string, k)
+	for j := range donors {
+		donors[j] = r.Bytes(r.Range(1, 4)*lib.BS + []int{0, 0, 1, 777, lib.BS - 1}[r.Intn(5)])
+		names[j] = fmt.Sprintf("donor-%d-%d.bin", m, j)
+		old.Put(lib.Entry{Path: names[j], Kind: "file", Data: donors[j]})
+	}
+	// donors in random order
+	order := make([]int, k)
+	for j := range order {
+		order[j] = j
+	}
+	for j := k - 1; j > 0; j-- {
+		x := r.Intn(j + 1)
+		order[j], order[x] = order[x], order[j]
+	}
+	var data []byte
+	var parts []string
+	for _, j := range order {
+		nb := len(donors[j]) / lib.BS
+		span := r.Range(1, nb)
+		if r.Chance(1, 2) {
+			span = 1
+		}
+		start := r.Range(0, nb-span)
+		if r.Chance(1, 2) {
+			start = 0
+		}
+		data = append(data, donors[j][start*lib.BS:(start+span)*lib.BS]...)
+		parts = append(parts, fmt.Sprintf("%s[%d+%d of %d blocks, %d bytes]", names[j], start, span, nb, len(donors[j])))
+		if r.Chance(1, 5) { // fresh bytes in between: what follows is no longer block-aligned in the new file
+			ins := r.Range(1, 500)
+			data = append(data, r.Bytes(ins)...)
+			parts = append(parts, fmt.Sprintf("fresh[%d]", ins))
+		}
+	}
+	name := fmt.Sprintf("mosaic-%d.bin", m)
+	if r.Chance(1, 4) {
+		name = names[r.Intn(k)]
+	}
+	for j := range donors { // some donors stay as they are
+		if names[j] != name && r.Chance(1, 2) {
+			nw.Put(lib.Entry{Path: names[j], Kind: "file", Data: donors[j]})
+		}
+	}
+	nw.Put(lib.Entry{Path: name, Kind: "file", Data: data})
+	return []string{"mosaic:" + name + " = " + strings.Join(parts, " + ")}
+}
+
+// one Optimize of an analysed context; rng != nil: both pools slice their reads, yield, and end
+// their files as mode says
+func c15OptimizeOnce(rc rediff.Context, p *c15Pair, procs int, rng *lib.Rng, mode int) (out []byte, cls, msg string) {
+	withProcs(procs, func() {
+		cls, msg = lib.WithDeadline(180*time.Second, func() error {
+			var tp, sp lake.Pool = fspool.New(rc.GetTargetContainer(), p.oldDir), fspool.New(rc.GetSourceContainer(), p.newDir)
+			if rng != nil {
+				tp, sp = &chunkyPool{Pool: tp, rng: rng.Fork(), mode: mode}, &chunkyPool{Pool: sp, rng: rng.Fork(), mode: mode}
+			}
+			defer tp.Close()
+			defer sp.Close()
+			var buf bytes.Buffer
+			err := rc.Optimize(rediff.OptimizeParams{TargetPool: tp, SourcePool: sp, PatchWriter: &buf})
+			out = buf.Bytes()
+			return err
+		})
+	})
+	return
+}
+
+func c15MappingNames(rc rediff.Context, ms []rdMapping) []string {
+	var out []string
+	for _, m := range ms {
+		out = append(out, fmt.Sprintf("%s<-%s(%d)", rc.GetSourceContainer().Files[m.Source].Path, rc.GetTargetContainer().Files[m.Target].Path, m.NumBytes))
+	}
+	return out
+}
+
+// The optimizer twice over:
+//   - `runs` complete optimizations of the same patch with the same parameters, under GOMAXPROCS
+//     1,2,8,16; run 0 reads both builds through plain pools, the others through pools that slice,
+//     yield and end their files in the three ways: identical bytes;
+//   - `analyses` repetitions of the (cheap) analysis pass alone: whenever one of them chooses
+//     other bsdiff targets than analysis 0, that context is optimized too and its bytes compared
+//     with run 0.  A choice that follows Go map iteration order flips about once in eight
+//     analyses: a handful of complete runs sees it too rarely.
+func c15OptimizeDeterminism(c *Ctx, cr *lib.Rng, p *c15Pair, o lib.OptParams, runs, analyses int, corpus string) error {
 	oracle := ""
-	dr, cls, msg := c15DiffOnce(p, lib.Compressions[0], runtime.NumCPU(), nil)
+	dr, cls, msg := c15DiffOnce(p, lib.Compressions[0], runtime.NumCPU(), nil, eofSeparate)
 	if cls != "ok" {
 		return fmt.Errorf("c15: diff for the optimizer failed: %s %s", cls, msg)
 	}
 	var ref []byte
+	var refMap []rdMapping
+	var refNames []string
 	var procsUsed []int
+	analyze := func() (rc rediff.Context, ms []rdMapping, cls, msg string) {
+		cls, msg = lib.WithDeadline(60*time.Second, func() error {
+			var err error
+			rc, ms, err = rdAnalyze(dr.Patch, o)
+			return err
+		})
+		return
+	}
 	for k := 0; k < runs && oracle == ""; k++ {
 		procs := c15Procs[k%len(c15Procs)]
 		procsUsed = append(procsUsed, procs)
+		rc, ms, cls, msg := analyze()
 		var got []byte
-		withProcs(procs, func() {
-			cls, msg = lib.WithDeadline(180*time.Second, func() error {
-				var err error
-				got, err = lib.Optimize(dr.Patch, p.oldDir, p.newDir, o)
-				return err
-			})
-		})
+		how := fmt.Sprintf("run %d (GOMAXPROCS %d)", k, procs)
+		if cls == "ok" {
+			var rng *lib.Rng
+			if k > 0 {
+				rng = cr.Fork()
+				how = fmt.Sprintf("run %d (GOMAXPROCS %d, slicing pools, EOF %s)", k, procs, c15EOFModes[k%3])
+			}
+			got, cls, msg = c15OptimizeOnce(rc, p, procs, rng, k%3)
+		}
 		switch {
 		case cls != "ok":
-			oracle = fmt.Sprintf("run %d (GOMAXPROCS %d) optimize %s: %s", k, procs, cls, msg)
+			oracle = fmt.Sprintf("%s optimize %s: %s", how, cls, msg)
 		case k == 0:
-			ref = got
+			ref, refMap, refNames = got, ms, c15MappingNames(rc, ms)
 		case !bytes.Equal(got, ref):
-			oracle = fmt.Sprintf("run %d (GOMAXPROCS %d): optimized patch differs from run 0 with the same parameters (len %d vs %d, first difference at %d)", k, procs, len(got), len(ref), firstDiffAt(got, ref))
+			oracle = fmt.Sprintf("%s: optimized patch differs from run 0 with the same parameters (len %d vs %d, first difference at %d; bsdiff targets %v vs %v)", how, len(got), len(ref), firstDiffAt(got, ref), c15MappingNames(rc, ms), refNames)
 		}
 		if cls == "hang" {
 			break
+		}
+	}
+	done := 0
+	for k := 0; k < analyses && oracle == "" && ref != nil; k++ {
+		rc, ms, cls, msg := analyze()
+		done++
+		if cls != "ok" {
+			oracle = fmt.Sprintf("analysis %d: %s: %s", k, cls, msg)
+			break
+		}
+		if fmt.Sprint(ms) == fmt.Sprint(refMap) {
+			continue
+		}
+		got, cls, msg := c15OptimizeOnce(rc, p, runtime.NumCPU(), nil, eofSeparate)
+		switch {
+		case cls != "ok":
+			oracle = fmt.Sprintf("analysis %d chose the bsdiff targets %v (run 0: %v) and its optimize %s: %s", k, c15MappingNames(rc, ms), refNames, cls, msg)
+		case !bytes.Equal(got, ref):
+			oracle = fmt.Sprintf("analysis %d of the same patch with the same parameters chose the bsdiff targets %v, run 0 chose %v: optimized patch differs from run 0 (len %d vs %d, first difference at %d)", k, c15MappingNames(rc, ms), refNames, len(got), len(ref), firstDiffAt(got, ref))
 		}
 	}
 	cl := fmt.Sprintf("optimize/p%d/c%d", o.Partitions, o.Concurrency)
@@ -471,7 +684,7 @@ func c15OptimizeDeterminism(c *Ctx, cr *lib.Rng, p *c15Pair, o lib.OptParams, ru
 	c.Out.Emit(&lib.Case{Class: cl, Nontrivial: len(procsUsed) >= 2,
 		Input: map[string]interface{}{"old": p.old.Summary(), "new": p.nw.Summary(), "relations": p.rel,
 			"partitions": o.Partitions, "concurrency": o.Concurrency, "forceMapAll": o.ForceMapAll, "sizeLimit": o.SizeLimit, "compression": o.Comp.String()},
-		Obs: map[string]interface{}{"runs": len(procsUsed), "procs": procsUsed, "optimizedLen": len(ref)}, Oracle: oracle})
+		Obs: map[string]interface{}{"runs": len(procsUsed), "procs": procsUsed, "analyses": done, "bsdiffTargets": refNames, "optimizedLen": len(ref)}, Oracle: oracle})
 	return nil
 }
 
@@ -494,7 +707,23 @@ func c15OptimizeCorpus(c *Ctx) error {
 		return err
 	}
 	defer os.RemoveAll(p.base)
-	return c15OptimizeDeterminism(c, r, p, lib.OptParams{Partitions: 1, SizeLimit: 64 << 20, Comp: lib.Compressions[0]}, 12, "optimize-tie")
+	if err := c15OptimizeDeterminism(c, r, p, lib.OptParams{Partitions: 1, SizeLimit: 64 << 20, Comp: lib.Compressions[0]}, c.N(4, 12), c.N(150, 600), "optimize-tie"); err != nil {
+		return err
+	}
+	// unequal claims: two blocks of one old file, then one block of another that goes on after
+	// it.  rediff credits them 3*64 KiB - 1 and 2*64 KiB - 1: no tie, yet both exceed half of
+	// the new file (found by a seeded change that short-cuts on "more than half")
+	old, nw = &lib.Build{}, &lib.Build{}
+	a, b = r.Bytes(3*lib.BS), r.Bytes(3*lib.BS)
+	old.Put(lib.Entry{Path: "a.bin", Kind: "file", Data: a})
+	old.Put(lib.Entry{Path: "b.bin", Kind: "file", Data: b})
+	nw.Put(lib.Entry{Path: "c.bin", Kind: "file", Data: append(append([]byte(nil), a[:2*lib.BS]...), b[:lib.BS]...)})
+	p2, err := c15WritePair(c, "c15om", old, nw, []string{"mosaic:c.bin = a.bin[0+2 of 3 blocks] + b.bin[0+1 of 3 blocks]"})
+	if err != nil {
+		return err
+	}
+	defer os.RemoveAll(p2.base)
+	return c15OptimizeDeterminism(c, r, p2, lib.OptParams{Partitions: 1, SizeLimit: 64 << 20, Comp: lib.Compressions[0]}, c.N(2, 4), c.N(150, 600), "optimize-unequal-claims")
 }
 
 func c15OptimizeCases(c *Ctx) error {
@@ -503,12 +732,12 @@ func c15OptimizeCases(c *Ctx) error {
 	runs := c.N(4, 12)
 	for i := 0; i < n; i++ {
 		cr := r.Fork()
-		old, nw, rel := c15GenOptPair(cr, i%5 == 4)
+		old, nw, rel := c15GenOptPair(cr, i%5 == 4, i%2 == 0)
 		p, err := c15WritePair(c, "c15o", old, nw, rel)
 		if err != nil {
 			return err
 		}
-		if err := c15OptimizeDeterminism(c, cr, p, c15OptParams(cr, i+int(c.Seed)), runs, ""); err != nil {
+		if err := c15OptimizeDeterminism(c, cr, p, c15OptParams(cr, i+int(c.Seed)), runs, c.N(100, 300), ""); err != nil {
 			return err
 		}
 		os.RemoveAll(p.base)
@@ -525,7 +754,8 @@ var c15ScanLabel = regexp.MustCompile(`\((\d+) blocks of `)
 // c15RunBsdiff runs DiffContext.Do and returns the message stream (marshalled), the matches
 // reconstructed from it, what the stream produces when replayed on old, and the number of scan
 // blocks the implementation announced
-func c15RunBsdiff(old, nw []byte, partitions, conc int) (stream []byte, ms []c15Match, replay []byte, blocks int, progress []float64, err error) {
+// rng != nil: both inputs are handed over by readers that slice, yield and end as mode says
+func c15RunBsdiff(old, nw []byte, partitions, conc int, rng *lib.Rng, mode int) (stream []byte, ms []c15Match, replay []byte, blocks int, progress []float64, err error) {
 	dc := &bsdiff.DiffContext{Partitions: partitions, SuffixSortConcurrency: conc}
 	var mu sync.Mutex
 	cons := &state.Consumer{
@@ -545,7 +775,11 @@ func c15RunBsdiff(old, nw []byte, partitions, conc int) (stream []byte, ms []c15
 	}
 	oldPos, newPos := 0, 0
 	var buf bytes.Buffer
-	err = dc.Do(bytes.NewReader(old), bytes.NewReader(nw), func(m proto.Message) error {
+	var oldR, newR io.Reader = bytes.NewReader(old), bytes.NewReader(nw)
+	if rng != nil {
+		oldR, newR = newChunky(oldR, int64(len(old)), rng.Fork(), mode), newChunky(newR, int64(len(nw)), rng.Fork(), mode)
+	}
+	err = dc.Do(oldR, newR, func(m proto.Message) error {
 		ctl := m.(*bsdiff.Control)
 		b, err := proto.Marshal(ctl)
 		if err != nil {
@@ -656,7 +890,11 @@ func c15Bsdiff(c *Ctx) error {
 			withProcs(procs, func() {
 				cls, msg = lib.WithDeadline(120*time.Second, func() error {
 					var err error
-					stream, m, replay, b, prog, err = c15RunBsdiff(old, nw, partitions, conc)
+					var rng *lib.Rng
+					if k > 0 { // run 0 hands over plain readers
+						rng = cr.Fork()
+					}
+					stream, m, replay, b, prog, err = c15RunBsdiff(old, nw, partitions, conc, rng, k%3)
 					return err
 				})
 			})
@@ -758,7 +996,7 @@ func runC15Race(c *Ctx) error {
 		defer os.RemoveAll(pr.base)
 		return c15DiffDeterminism(c, r, pr, lib.Compressions[p.I%len(lib.Compressions)], 2, "")
 	case "optimize":
-		old, nw, rel := c15GenOptPair(r, false)
+		old, nw, rel := c15GenOptPair(r, false, p.I%2 == 1)
 		pr, err := c15WritePair(c, "c15ro", old, nw, rel)
 		if err != nil {
 			return err
@@ -768,7 +1006,7 @@ func runC15Race(c *Ctx) error {
 		if o.Partitions < 2 {
 			o.Partitions = 2
 		}
-		return c15OptimizeDeterminism(c, r, pr, o, 2, "")
+		return c15OptimizeDeterminism(c, r, pr, o, 2, 8, "")
 	case "bsdiff":
 		old, nw := c15GenBsdiffPair(r, []string{"dense", "edits"}[p.I%2], false)
 		if len(old) > 200000 {
@@ -779,7 +1017,7 @@ func runC15Race(c *Ctx) error {
 		for k := 0; k < 2; k++ {
 			var s, replay []byte
 			var e error
-			withProcs(8, func() { s, _, replay, _, _, e = c15RunBsdiff(old, nw, 2+p.I%3, 2) })
+			withProcs(8, func() { s, _, replay, _, _, e = c15RunBsdiff(old, nw, 2+p.I%3, 2, r.Fork(), 1+k) })
 			if e != nil {
 				oracle = "bsdiff error: " + e.Error()
 			} else if !bytes.Equal(replay, nw) {
@@ -813,6 +1051,7 @@ func c15RaceCases(c *Ctx) error {
 		var child struct {
 			Oracle string
 			Obs    map[string]interface{}
+			Input  interface{}
 		}
 		if b, err := os.ReadFile(result); err == nil {
 			json.Unmarshal(bytes.TrimSpace(b), &child)
@@ -830,7 +1069,8 @@ func c15RaceCases(c *Ctx) error {
 		case child.Obs == nil:
 			return fmt.Errorf("race-detector child produced no result: %s", tail(cr.Stderr, 600))
 		}
-		c.Out.Emit(&lib.Case{Class: "race/" + p.Kind, Nontrivial: true, Input: p,
+		// the parameters regenerate the child's case; what it was goes along (readable replay)
+		c.Out.Emit(&lib.Case{Class: "race/" + p.Kind, Nontrivial: true, Input: map[string]interface{}{"Seed": p.Seed, "Kind": p.Kind, "I": p.I, "case": child.Input},
 			Obs: map[string]interface{}{"races": cr.Races, "exit": cr.Exit, "child": child.Obs}, Oracle: oracle})
 	}
 	return nil
